@@ -38,6 +38,26 @@ def tuple_sort(sorts):
     return _tuple_cache[key]
 
 
+def simp(t):
+    """simplify only down to literals: z3's simplifier rewrites seq.nth into
+    internal seq.nth_i/seq.nth_u forms that other solvers cannot read and
+    that make z3 itself give up, so non-literal results are discarded"""
+    try:
+        r = z3.simplify(t)
+    except z3.Z3Exception:
+        return t
+    if z3.is_int_value(r) or z3.is_string_value(r) or z3.is_true(r) or z3.is_false(r) or z3.is_rational_value(r):
+        return r
+    if z3.is_app(r) and r.num_args() == 0:
+        return r
+    try:
+        if 'seq.nth_' not in r.sexpr():
+            return r
+    except Exception:
+        pass
+    return t
+
+
 # --------------------------------------------------------------------------
 # values
 
